@@ -551,6 +551,15 @@ class Runner:
             out[k] = float(bn[i].w.detach())
         return out
 
+    def best_kappas(self):
+        bn = self.solver.best_nets
+        if bn is None:
+            return None
+        out = [None] * len(self.nets_u)
+        for i, k in enumerate(self.sc['cfg']['netof']):
+            out[k] = float(bn[i].kappa)
+        return out
+
     # ---- scripted callbacks
     def make_callback(self, fi, ci, script):
         """script: list of {'when': local_epoch or None (= every epoch), 'act': action dict}"""
@@ -606,6 +615,7 @@ class Runner:
                 'stop': bool(s._stop_training), 'max_local': s._max_local_epoch,
                 'nb': dict(s.n_batches), 'n_log': len(self.log), 'n_mcalls': len(self.rec['metric_calls']),
                 'n_evals': len(self.rec['evals']), 'closure': bool(_requires_closure(s.optimizer)),
+                'kappa': [float(n_.kappa) for n_ in self.nets_u], 'best_kappa': self.best_kappas(),
                 'n_steps': len(self.rec['steps']), 'trainable': [bool(p.requires_grad) for p in self.params], 'lid': self.cur_lid, 'tags': [getattr(c, 'tag', 0.0) for c in self.solver.conditions],
                 'lens': {k: len(v) for k, v in mh.items()},
                 'ndraw': {'train': self.gen['train'].k, 'valid': self.gen['valid'].k}}
@@ -663,6 +673,10 @@ class Runner:
                 s.conditions[i] = comp[cname](act['tag'])          # self.conds IS solver.conditions
         elif kind == 'get_internals':
             s.get_internals('all')
+        elif kind == 'set_kappa':
+            # state of a network OUTSIDE its state_dict: the plain Python attribute `kappa` used in forward, changed in place
+            for n_, kv in zip(self.nets_u, act['kappa']):
+                n_.kappa = float(kv)
         elif kind == 'record':
             self.rec['epochs'].append(self.snapshot(fi))
         else:
@@ -1208,6 +1222,8 @@ def gen_action(r, sc, kinds):
         return {'kind': k, 'i': r.randrange(len(sc['conds'])), 'tag': r.randint(-20, 20)}
     if k == 'get_internals':
         return {'kind': k}
+    if k == 'set_kappa':
+        return {'kind': k, 'kappa': [r.randint(-3, 3) for _ in sc['w0']]}
     if k == 'set_theta':
         return {'kind': 'set_theta', 'w': [r.randint(-8, 8) / 4 for _ in sc['w0']]}
     if k == 'set_conds':
@@ -1337,7 +1353,8 @@ def gen_eval_op(r, sc, nsol):
         base['layout'] = r.choice(['transpose', 'stride'])       # non-contiguous views (like meshgrid outputs, .T, [::2])
     if sc['ncoords'] > 1 and r.random() < 0.35:
         # same number of points, different shapes: the result must take the shape of the FIRST coordinate
-        base['shapes'] = [shape] + [r.choice([[n], [n, 1], [a, b]]) for _ in range(sc['ncoords'] - 1)]
+        alts = [[], [1], [1, 1]] if shape == [] else [[n], [n, 1], [a, b]]
+        base['shapes'] = [shape] + [r.choice(alts) for _ in range(sc['ncoords'] - 1)]
     if nsol and r.random() < 0.75:
         return dict(base, op='eval', sol=r.randrange(nsol))
     return dict(base, op='residuals', best=r.random() < 0.5)
